@@ -12,6 +12,8 @@ import (
 	"github.com/ipld/go-ipld-prime"
 	cidlink "github.com/ipld/go-ipld-prime/linking/cid"
 	basicnode "github.com/ipld/go-ipld-prime/node/basic"
+	"github.com/ipld/go-ipld-prime/traversal/selector"
+	selectorbuilder "github.com/ipld/go-ipld-prime/traversal/selector/builder"
 	"github.com/ipni/go-libipni/dagsync"
 	ic "github.com/libp2p/go-libp2p/core/crypto"
 	"github.com/libp2p/go-libp2p/core/peer"
@@ -39,13 +41,16 @@ type CfgJ struct {
 	SegDepth     int64  `json:"seg_depth"`
 	EntriesDepth int64  `json:"entries_depth"`
 	Strict       bool   `json:"strict"`
-	Hook         string `json:"hook"`                  // none | nominate | silent
+	Hook         string `json:"hook"`                  // none | nominate | silent | general (dagsync.MakeGeneralBlockHook)
 	LastKnown    int    `json:"last_known,omitempty"`  // WithLastKnownSync answers this block for the publisher (0: option not given)
 	IdleTTLms    int    `json:"idle_ttl_ms,omitempty"` // IdleHandlerTTL (0: default, one hour)
+	Retry        int    `json:"retry,omitempty"`       // RetryableHTTPClient(Retry, 1ms, 2ms) plus AddrTTL and Topic(nil)
 }
 
 type CallJ struct {
-	T       string `json:"t"`                  // ad | entries | one | all | remove (RemoveHandler) | idle (sleep past IdleHandlerTTL)
+	T       string `json:"t"`                  // ad | entries | one | all | remove (RemoveHandler) | idle (sleep past IdleHandlerTTL) | hide (the publisher's hidden set changes)
+	Hide    []int  `json:"hide,omitempty"`     // t = hide: the blocks the publisher does not serve from now on
+	Sel     string `json:"sel,omitempty"`      // t = sel (Syncer.Sync with a built selector, root Ent, stop Stop, limit Depth): dagsync | stopnode-nil | withstop-prev | withstop-next
 	Head    int    `json:"head,omitempty"`     // WithHeadAdCid (rank; 0 = query the publisher)
 	Stop    int    `json:"stop,omitempty"`     // WithStopAdCid
 	Resync  bool   `json:"resync,omitempty"`   // WithAdsResync
@@ -65,8 +70,9 @@ type Scn struct {
 	Pre    []int    `json:"pre,omitempty"`    // blocks already in the destination store
 	Calls  []CallJ  `json:"calls"`
 	// what the generator knows, for the direct oracles
-	Oracle string `json:"oracle"`          // adchain | entchain | one | tree | adseq | none
-	Chain  []int  `json:"chain,omitempty"` // the chain, in traversal order (newest / first block first)
+	Oracle string `json:"oracle"`           // adchain | entchain | one | tree | adseq | none
+	Chain  []int  `json:"chain,omitempty"`  // the chain, in traversal order (newest / first block first)
+	Chain2 []int  `json:"chain2,omitempty"` // adseq: the entries chain, first chunk first
 	Group  string `json:"group,omitempty"`
 }
 
@@ -155,6 +161,9 @@ func subOptions(c CfgJ, w *syncdrv.World) []dagsync.Option {
 		lk := w.CidOf(c.LastKnown)
 		o = append(o, dagsync.WithLastKnownSync(func(peer.ID) (cid.Cid, bool) { return lk, true }))
 	}
+	if c.Retry != 0 {
+		o = append(o, dagsync.RetryableHTTPClient(c.Retry, time.Millisecond, 2*time.Millisecond), dagsync.AddrTTL(time.Minute), dagsync.Topic(nil))
+	}
 	if c.IdleTTLms != 0 {
 		o = append(o, dagsync.IdleHandlerTTL(time.Duration(c.IdleTTLms)*time.Millisecond))
 	}
@@ -199,6 +208,19 @@ func execScn(sc Scn) scnObs {
 		var co callObs
 		var ret cid.Cid
 		isAd := c.T == "ad"
+		if c.T == "hide" {
+			var hid []cid.Cid
+			for _, r := range c.Hide {
+				hid = append(hid, w.CidOf(r))
+			}
+			srv.Reset(hid, nil)
+			co.ret, co.hookPeer = "nil", true
+			if l := sub.S.GetLatestSync(srv.PeerID); l != nil {
+				co.latest = rankOf(w, l.(cidlink.Link).Cid)
+			}
+			out.calls = append(out.calls, co)
+			continue
+		}
 		if c.T == "remove" || c.T == "idle" {
 			if c.T == "remove" {
 				co.err = fmt.Sprintf("removed=%v", sub.S.RemoveHandler(srv.PeerID))
@@ -249,6 +271,8 @@ func execScn(sc Scn) scnObs {
 				return err
 			case "entries":
 				return sub.S.SyncEntries(ctx, srv.AddrInfo(), w.CidOf(c.Ent), so...)
+			case "sel":
+				return sub.SyncWithSelector(ctx, srv, w.CidOf(c.Ent), buildSelector(w, c))
 			case "one":
 				return sub.S.SyncOneEntry(ctx, srv.AddrInfo(), w.CidOf(c.Ent))
 			case "all":
@@ -291,6 +315,45 @@ func execScn(sc Scn) scnObs {
 	}
 	out.store, out.unk = sub.StoredRanks(w)
 	return out
+}
+
+// buildSelector: the selector of a "sel" call, built with dagsync's exported builders
+func buildSelector(w *syncdrv.World, c CallJ) ipld.Node {
+	limit := selector.RecursionLimitNone()
+	if c.Depth >= 1 {
+		limit = selector.RecursionLimitDepth(c.Depth)
+	}
+	var stop ipld.Link
+	if c.Stop != 0 {
+		stop = cidlink.Link{Cid: w.CidOf(c.Stop)}
+	}
+	ssb := selectorbuilder.NewSelectorSpecBuilder(basicnode.Prototype.Any)
+	field := func(name string) selectorbuilder.SelectorSpec {
+		return ssb.ExploreFields(func(efsb selectorbuilder.ExploreFieldsSpecBuilder) {
+			efsb.Insert(name, ssb.ExploreRecursiveEdge())
+		})
+	}
+	switch c.Sel {
+	case "dagsync":
+		return dagsync.DagsyncSelector(limit, stop)
+	case "stopnode-nil":
+		return dagsync.ExploreRecursiveWithStopNode(limit, nil, stop)
+	case "withstop-prev":
+		return dagsync.ExploreRecursiveWithStop(limit, field("PreviousID"), stop)
+	case "withstop-next":
+		return dagsync.ExploreRecursiveWithStop(limit, field("Next"), stop)
+	}
+	panic("selector kind " + c.Sel)
+}
+
+func selView(kind string) string {
+	switch kind {
+	case "withstop-prev":
+		return "VPrev"
+	case "withstop-next":
+		return "VNext"
+	}
+	return "VAll"
 }
 
 func rankOf(w *syncdrv.World, c cid.Cid) int {
@@ -364,6 +427,9 @@ func minus(a, b []int) []int {
 
 // effective hook of a call
 func effHook(sc Scn, c CallJ) string {
+	if c.T == "sel" {
+		return "silent" // the Sync's own recording hook
+	}
 	if c.T == "one" || c.Hook == "" || c.Hook == "none" {
 		return sc.Cfg.Hook
 	}
@@ -454,6 +520,13 @@ func checkScn(sc Scn, o scnObs) (string, string, string) {
 			limit = c.Depth
 		}
 		expected = cut(from(sc.Chain, head), limit)
+	case "selchain":
+		// the root is always loaded; a link is not followed when it is the stop link
+		head = c.Ent
+		rest := from(sc.Chain, head)
+		if len(rest) > 0 {
+			expected = cut(append([]int{head}, takeUntil(rest[1:], c.Stop)...), c.Depth)
+		}
 	case "one":
 		head = c.Ent
 		if head != 0 {
@@ -570,24 +643,76 @@ func checkScn(sc Scn, o scnObs) (string, string, string) {
 	return "", "", ""
 }
 
-// checkSeq: a sequence of queried-head SyncAdChain calls with handler removals in between,
-// on a strict chain with everything available.  The latest sync is followed here in Go:
-// it is the head of the last successful queried sync (else the initial / last-known one),
-// whatever happens to the publisher's handler.
+// checkSeq: a history of SyncAdChain / SyncEntries calls on one subscriber, with handler
+// removals and with blocks withdrawn / restored by the publisher in between, on a strict
+// advertisement chain (Chain) and an entries chain (Chain2).  The latest sync, the local
+// store and the publisher's hidden set are followed here in Go.  Per the property text:
+//   - a successful sync hands the hook exactly the segment, in order, once each, whatever
+//     happened before (failed attempts included), and requests exactly its missing blocks;
+//   - a sync that needs a block nobody has fails; the hook calls it made (completed
+//     segments of a segmented sync; none when unsegmented) are an initial part of the segment.
 func checkSeq(sc Scn, o scnObs) (string, string, string) {
 	latest := sc.Latest
 	if latest == 0 {
 		latest = sc.Cfg.LastKnown
 	}
+	stored := append([]int{}, sc.Pre...)
+	hidden := append([]int{}, sc.Hidden...)
 	var wantEvents [][2]int
 	hist := ""
 	for i, c := range sc.Calls {
 		co := o.calls[i]
-		hist += fmt.Sprintf("%s(%d)->%v;", c.T, c.PubHead, co.hooks)
+		hist += fmt.Sprintf("%s(%d)->%s%v;", c.T, c.PubHead+c.Ent, co.ret, co.hooks)
 		sig := func(what string) string {
-			return fmt.Sprintf("seq-%s:step=%d:n=%d:seg=%d:first=%d:ttl=%d:lastknown=%d:%s", what, i, len(sc.Chain), sc.Cfg.SegDepth, sc.Cfg.FirstDepth, sc.Cfg.IdleTTLms, sc.Cfg.LastKnown, callsSig(sc.Calls))
+			return fmt.Sprintf("seq-%s:step=%d:n=%d:seg=%d:first=%d:ttl=%d:lastknown=%d:hook=%s:%s", what, i, len(sc.Chain), sc.Cfg.SegDepth, sc.Cfg.FirstDepth, sc.Cfg.IdleTTLms, sc.Cfg.LastKnown, sc.Cfg.Hook, callsSig(sc.Calls))
+		}
+		// one sync over `expected`; segOff: no segmentation in effect
+		sync := func(expected []int, segOff bool) (string, string, string, bool) {
+			miss := -1
+			for k, r := range expected {
+				if has(hidden, r) && !has(stored, r) {
+					miss = k
+					break
+				}
+			}
+			if miss >= 0 {
+				if co.ret != "err" {
+					return "seq-missing-no-error", sig("missing-block-no-error"), fmt.Sprintf("call %d needs block %d which nobody has, but did not fail (history %s)", i, expected[miss], hist), false
+				}
+				if len(co.hooks) > miss || !eqInts(co.hooks, expected[:len(co.hooks)]) || (segOff && len(co.hooks) != 0) {
+					return "seq-failed-hooks", sig("failed-sync-hook-log"), fmt.Sprintf("call %d failed at block %d; its hook log %v is not an initial part of the segment %v made of completed segments (history %s)", i, expected[miss], co.hooks, expected, hist), false
+				}
+				wantReq := append(minus(expected[:miss], stored), expected[miss])
+				if !eqInts(co.reqs, wantReq) {
+					return "seq-failed-reqs", sig("failed-sync-requests"), fmt.Sprintf("call %d: requests %v, expected %v (history %s)", i, co.reqs, wantReq, hist), false
+				}
+				stored = append(stored, minus(expected[:miss], stored)...)
+				return "", "", "", false
+			}
+			if co.ret == "err" || co.ret == "panic" {
+				return "seq-error", sig("error"), fmt.Sprintf("call %d failed although every block of the segment %v is available: %s (history %s)", i, expected, co.err, hist), false
+			}
+			if !eqInts(co.hooks, expected) {
+				seen := map[int]bool{}
+				for _, h := range co.hooks {
+					if seen[h] {
+						return "seq-hook-duplicate", sig("hook-duplicate"),
+							fmt.Sprintf("call %d handed block %d to the hook twice: hook log %v, segment %v (history %s)", i, h, co.hooks, expected, hist), false
+					}
+					seen[h] = true
+				}
+				return "seq-hook-log", sig("hook-log"),
+					fmt.Sprintf("call %d (latest sync %d): the hook log %v is not the segment %v (history %s)", i, latest, co.hooks, expected, hist), false
+			}
+			if wantReq := minus(expected, stored); !eqInts(co.reqs, wantReq) {
+				return "seq-req", sig("requests"), fmt.Sprintf("call %d requested %v, the missing blocks of the segment are %v (history %s)", i, co.reqs, wantReq, hist), false
+			}
+			stored = append(stored, minus(expected, stored)...)
+			return "", "", "", true
 		}
 		switch c.T {
+		case "hide":
+			hidden = append([]int{}, c.Hide...)
 		case "remove", "idle":
 			if len(co.hooks) != 0 || len(co.reqs) != 0 {
 				return "seq-removal-activity", sig("removal-activity"), "removing the handler called the hook or requested blocks"
@@ -599,8 +724,23 @@ func checkSeq(sc Scn, o scnObs) (string, string, string) {
 			if c.T == "idle" && co.err != "still-there=false" {
 				return "seq-idle", sig("idle-handler-not-removed"), "the idle cleaner did not remove the handler within 3.5 TTL: " + co.err
 			}
+		case "entries":
+			limit := sc.Cfg.EntriesDepth
+			if c.Depth != 0 {
+				limit = c.Depth
+			}
+			segOff := sc.Cfg.SegDepth <= 0 || (limit >= 1 && limit <= sc.Cfg.SegDepth)
+			if cat, sg, d, _ := sync(cut(from(sc.Chain2, c.Ent), limit), segOff); cat != "" {
+				return cat, sg, d
+			}
+			if co.latest != latest {
+				return "seq-latest", sig("latest"), fmt.Sprintf("an entries sync changed the latest sync to %d", co.latest)
+			}
 		case "ad":
-			head := c.PubHead
+			head, queried := c.Head, false
+			if head == 0 {
+				head, queried = c.PubHead, true
+			}
 			stop := c.Stop
 			if stop == 0 && !c.Resync {
 				stop = latest
@@ -611,22 +751,24 @@ func checkSeq(sc Scn, o scnObs) (string, string, string) {
 			} else if stop == 0 && sc.Cfg.FirstDepth != 0 {
 				limit = sc.Cfg.FirstDepth
 			}
+			segdl := sc.Cfg.SegDepth
+			if c.Seg != 0 {
+				segdl = c.Seg
+			}
+			segOff := segdl <= 0 || (limit >= 1 && limit <= segdl)
 			expected := cut(takeUntil(from(sc.Chain, head), stop), limit)
-			if co.ret != "ok" || co.retRank != head {
-				return "seq-return", sig("return"), fmt.Sprintf("call %d did not return the head %d: %s %d %s", i, head, co.ret, co.retRank, co.err)
+			cat, sg, d, ok := sync(expected, segOff)
+			if cat != "" {
+				return cat, sg, d
 			}
-			if !eqInts(co.hooks, expected) {
-				return "seq-hook-log", sig("hook-log"),
-					fmt.Sprintf("call %d (publisher head %d, latest sync %d): the hook log %v is not the segment %v back to, excluding, the last synced advertisement (history %s)", i, head, latest, co.hooks, expected, hist)
-			}
-			for _, r := range co.reqs {
-				if r == stop || !has(expected, r) {
-					return "seq-req", sig("requested-stop-or-older"), fmt.Sprintf("call %d requested block %d, which is the stop block or older (history %s)", i, r, hist)
+			if ok {
+				if co.retRank != head {
+					return "seq-return", sig("return"), fmt.Sprintf("call %d did not return the head %d: %s %d %s", i, head, co.ret, co.retRank, co.err)
 				}
-			}
-			if head != stop {
-				latest = head
-				wantEvents = append(wantEvents, [2]int{head, len(expected)})
+				if queried && head != stop {
+					latest = head
+					wantEvents = append(wantEvents, [2]int{head, len(expected)})
+				}
 			}
 			if co.latest != latest {
 				return "seq-latest", sig("latest"), fmt.Sprintf("after call %d the latest sync is %d, not %d", i, co.latest, latest)
@@ -649,6 +791,10 @@ func callsSig(cs []CallJ) string {
 				p += "r"
 			}
 			parts = append(parts, p)
+		case "entries":
+			parts = append(parts, fmt.Sprintf("ent%d", c.Ent))
+		case "hide":
+			parts = append(parts, fmt.Sprintf("hide%v", c.Hide))
 		default:
 			parts = append(parts, c.T)
 		}
@@ -694,6 +840,8 @@ func coqHook(h string) string {
 		return "HNominate"
 	case "silent":
 		return "HSilent"
+	case "general":
+		return "HNominate" // MakeGeneralBlockHook nominates the advertisement's PreviousID
 	}
 	panic("hook " + h)
 }
@@ -743,6 +891,14 @@ func coqCase(sc Scn, o scnObs) string {
 			ct = "CRemove"
 		case "idle":
 			ct = "CIdle"
+		case "sel":
+			lim := "None"
+			if c.Depth >= 1 {
+				lim = fmt.Sprintf("(Some %d%%nat)", c.Depth)
+			}
+			ct = fmt.Sprintf("(CSel %s %s %s %d)", selView(c.Sel), coqOptCid(c.Stop), lim, c.Ent)
+		case "hide":
+			ct = "(CHide " + coqCids(c.Hide) + ")"
 		}
 		co := o.calls[i]
 		ret := "RErr"
